@@ -32,6 +32,45 @@ class Unsupported(AnalysisError):
     """A construct outside the supported subset of a domain (-> UNDECIDED, never a violation)."""
 
 
+class BudgetExhausted(AnalysisError):
+    """The global step / wall-clock budget of the abstract interpreters is used up (-> UNDECIDED, exit 2).
+    Deliberately *not* a subclass of Unsupported: it must not be swallowed by `except Unsupported` fallbacks."""
+
+
+class _Budget(object):
+    """One budget per check: every loop of this module (polynomial products, interval products, term building,
+    path enumeration, witness grids, domain evaluators) ticks it, so no analysis can run away."""
+    MAX_STEPS = 30 * 1000 * 1000
+    MAX_SECONDS = 90.0
+
+    def __init__(self):
+        self.reset()
+
+    def reset(self, max_steps=None, max_seconds=None):
+        import time
+        self.steps = 0
+        self.limit = max_steps or self.MAX_STEPS
+        self.deadline = time.time() + (max_seconds or self.MAX_SECONDS)
+        self.next_clock = 20000
+
+    def tick(self, n=1):
+        self.steps += n
+        if self.steps > self.limit:
+            raise BudgetExhausted('analysis budget exhausted (%d abstract-interpretation steps)' % self.limit)
+        if self.steps >= self.next_clock:
+            import time
+            self.next_clock = self.steps + 20000
+            if time.time() > self.deadline:
+                raise BudgetExhausted('analysis budget exhausted (wall-clock limit of the abstract interpreters)')
+
+
+BUDGET = _Budget()
+
+
+def reset_budget(max_steps=None, max_seconds=None):
+    BUDGET.reset(max_steps, max_seconds)
+
+
 # =============================================================================== Poly / Rat
 def _mono_mul(a, b):
     d = dict(a)
@@ -57,6 +96,7 @@ class Poly(object):
 
     def __add__(self, o):
         d = dict(self.t)
+        BUDGET.tick(len(o.t) + 1)
         for m, c in o.t.items():
             d[m] = d.get(m, 0) + c
         return Poly(d)
@@ -70,6 +110,7 @@ class Poly(object):
     def __mul__(self, o):
         d = {}
         for m1, c1 in self.t.items():
+            BUDGET.tick(len(o.t) + 1)
             for m2, c2 in o.t.items():
                 m = _mono_mul(m1, m2)
                 d[m] = d.get(m, 0) + c1 * c2
@@ -214,6 +255,8 @@ class Rat(object):
     def ipow(self, k):
         out = Rat.const(1)
         base = self if k >= 0 else Rat.const(1) / self
+        if abs(k) > 64:
+            raise Unsupported('power %d is too large for the closed-form domain' % k)
         for _ in range(abs(k)):
             out = out * base
         return out
@@ -240,6 +283,7 @@ class Rat(object):
         def sub_poly(p):
             out = Rat.const(0)
             for m, c in p.t.items():
+                BUDGET.tick()
                 term = Rat.const(c)
                 for s, e in m:
                     term = term * ((val if s == sym else Rat.sym(s)).ipow(e))
@@ -292,6 +336,7 @@ class Interval(object):
 
     def __mul__(self, o):
         cands = []
+        BUDGET.tick()
         for a, ao in ((self.lo, self.lo_open), (self.hi, self.hi_open)):
             for b, bo in ((o.lo, o.lo_open), (o.hi, o.hi_open)):
                 if (a == 0 and abs(b) == INF) or (b == 0 and abs(a) == INF):
@@ -333,6 +378,8 @@ class Interval(object):
     def ipow(self, k):
         if k == 0:
             return Interval.point(1)
+        if k > 64:
+            raise Unsupported('interval power %d is too large' % k)
         out = self
         for _ in range(k - 1):
             out = out * self
@@ -459,23 +506,29 @@ class Facts(object):
             return n
         return n / self.interval_of_poly(rat.d)
 
-    def sign(self, rat):
-        """Subset of {'zero','pos','neg','nonneg','nonpos'} that is *proved*; '' if nothing is."""
-        if rat.is_zero():
-            return 'zero'
+    def _interval_sign(self, rat):
         try:
             iv = self.interval_of(rat)
         except Unsupported:
-            iv = None
-        if iv is not None:
-            if iv.positive():
-                return 'pos'
-            if iv.negative():
-                return 'neg'
-            if iv.nonneg():
-                return 'nonneg'
-            if iv.nonpos():
-                return 'nonpos'
+            return ''
+        if iv.positive():
+            return 'pos'
+        if iv.negative():
+            return 'neg'
+        if iv.nonneg():
+            return 'nonneg'
+        if iv.nonpos():
+            return 'nonpos'
+        return ''
+
+    def sign(self, rat):
+        """One of 'zero','pos','neg','nonneg','nonpos' when *proved*; '' if nothing is."""
+        if rat.is_zero():
+            return 'zero'
+        s = self._interval_sign(rat)
+        if s:
+            return s
+        # relational facts: rat == q * fact with q of known sign (by intervals only: no recursion)
         for fact, strict in self.nonneg:
             if fact.is_zero():
                 continue
@@ -483,12 +536,22 @@ class Facts(object):
                 q = rat / fact
             except Unsupported:
                 continue
-            s = self.sign(q) if not (q.symbols() & fact.symbols() and q == rat) else ''
-            if q.is_const() or s in ('pos', 'neg', 'nonneg', 'nonpos'):
-                s = ('pos' if q.const_value() > 0 else 'neg') if q.is_const() else s
-                if s in ('pos', 'nonneg'):
-                    return 'pos' if (strict and s == 'pos') else 'nonneg'
-                return 'neg' if (strict and s == 'neg') else 'nonpos'
+            if q.is_const():
+                qs = 'pos' if q.const_value() > 0 else 'neg'
+            else:
+                qs = self._interval_sign(q)
+            if qs in ('pos', 'nonneg'):
+                return 'pos' if (strict and qs == 'pos') else 'nonneg'
+            if qs in ('neg', 'nonpos'):
+                return 'neg' if (strict and qs == 'neg') else 'nonpos'
+        # rat >= fact >= 0  (rat - fact of known non-negative sign), and the mirror image
+        for fact, strict in self.nonneg:
+            ds = self._interval_sign(rat - fact) or ('zero' if (rat - fact).is_zero() else '')
+            if ds in ('pos', 'nonneg', 'zero'):
+                return 'pos' if (strict or ds == 'pos') else 'nonneg'
+            ds = self._interval_sign(rat + fact) or ('zero' if (rat + fact).is_zero() else '')
+            if ds in ('neg', 'nonpos', 'zero'):
+                return 'neg' if (strict or ds == 'neg') else 'nonpos'
         return ''
 
     def proves_ge(self, a, b, strict=False):
@@ -510,6 +573,7 @@ class Facts(object):
         if total > limit:
             axes = [a[:max(2, int(limit ** (1.0 / max(1, len(axes)))))] for a in axes]
         for combo in itertools.product(*axes):
+            BUDGET.tick(5)
             yield dict(zip(names, combo))
 
 
@@ -561,6 +625,7 @@ def t_conjuncts(t):
 
 
 def subterms(t):
+    BUDGET.tick()
     yield t
     if isinstance(t, tuple):
         for x in t[1:]:
@@ -647,6 +712,7 @@ class TermBuilder(object):
         return self._b(nf.canon(expr), env, store or {})
 
     def _b(self, e, env, store):
+        BUDGET.tick()
         b = lambda x: self._b(x, env, store)   # noqa: E731
         if isinstance(e, ast.Constant):
             v = e.value
@@ -800,6 +866,7 @@ def sym_exec(idx, fi, stmts=None, env=None, store=None, loops='error', max_paths
             tt = TermBuilder.build(tb, _as_load(target), env, {})      # location, not its current content
             if tt[0] == 'cfg' or (tt[0] == 'attr' and tt[1] == ('self',)):
                 store[tt] = value
+                effects.append((('setcfg', tt, value), stmt))      # keeps the order relative to calls (e.g. super().__init__)
             else:
                 store[tt] = value                       # read-after-write inside the analysed fragment (no aliasing)
                 effects.append((('store', tt, value), stmt))
@@ -810,6 +877,7 @@ def sym_exec(idx, fi, stmts=None, env=None, store=None, loops='error', max_paths
         if len(out) > max_paths:
             raise Unsupported('too many paths')
         for i, s in enumerate(stmts):
+            BUDGET.tick(3)
             if isinstance(s, ast.Expr):
                 if isinstance(s.value, ast.Constant):
                     continue
@@ -920,6 +988,7 @@ class RatEnv(object):
         self.atoms = {}     # name -> ('pow', base Rat, exponent Rat, base term, exponent term)
 
     def rat(self, t):
+        BUDGET.tick()
         t = strip_wrappers(t)
         k = t[0]
         if k == 'num':
@@ -976,6 +1045,7 @@ class RatEnv(object):
 
 def term_interval(t, facts):
     """Interval of a scalar term over the symbol ranges in `facts` (model table for round/float/pow)."""
+    BUDGET.tick()
     t = strip_wrappers(t)
     k = t[0]
     if k == 'num':
@@ -1004,6 +1074,7 @@ def term_interval(t, facts):
 
 def concrete(t, asg):
     """Exact value of a scalar/boolean term at an assignment {symbol: Fraction | python value}."""
+    BUDGET.tick()
     k = t[0]
     if k == 'num':
         return t[1]
@@ -1591,6 +1662,7 @@ class MagEval(object):
         raise Unsupported('sign of `%s` is unknown' % v.value.text())
 
     def ev(self, t):
+        BUDGET.tick()
         k = t[0]
         if k == 'num':
             c = Rat.const(t[1])
@@ -1833,6 +1905,7 @@ class AlgEval(object):
         self.renv = renv or RatEnv()
 
     def ev(self, t):
+        BUDGET.tick()
         if t == self.base:
             return AlgVal(matrix={('W', 0, 0, 0): Rat.const(1)})
         k = t[0]
@@ -1910,6 +1983,7 @@ UNK = _Unknown()
 
 def enum_eval(t, asg):
     """Value of a term under an assignment of configuration keys (python values); UNK when data-dependent."""
+    BUDGET.tick()
     k = t[0]
     if k in ('str', 'bool'):
         return t[1]
